@@ -66,7 +66,7 @@ CLAIMED = {
   "note": 'Trusted: clang AST, z3/cvc5, encoding assumptions listed in the evidence; preconditions written in contracts/*.py; the C++ class methods and Python functions that compose these kernels are glue outside the contracts (a change there is invisible to this check). Bounded stand-ins are never counted as proved.',
   "technique": 'contract-based deductive verification of the real kernel code (VC generator over the clang AST, sidecar contracts, lockstep equivalence with the YAML definitions; z3/cvc5; replay on the compiled kernels)'},
  "C12": {
-  "text": 'Memory safety and absence of division traps for every CPU kernel symbol (690 specializations) and awkward_regularize_rangeslice under the extents and validity preconditions of the sidecar contracts: every array access inside its extent (or, where no extent is stated, index >= 0), no division by zero / MIN/-1, stores only through non-const parameters, inferred loop invariants inductive (Houdini). Call sites (Engine G), ownership/lifetime and the Python layer are not covered yet; Forth VM safety is under C19.',
+  "text": 'Memory safety and absence of division traps for every CPU kernel symbol (690 specializations) and awkward_regularize_rangeslice under the extents and validity preconditions of the sidecar contracts: every array access inside its extent (or, where no extent is stated, index >= 0), no division by zero / MIN/-1, stores only through non-const parameters, inferred loop invariants inductive (Houdini). Also here: the Forth VM units, the GrowableBuffer units and builder discipline, dispatch forwarding of kernel-dispatch.cpp, and a bounded run of the combinations kernels with buffers sized by the length kernel. Ownership/lifetime, printing/conversion entry points and the Python layer are not covered.',
   "ref": 'DESIGN.md section 5 (C12)',
   "note": 'Trusted: clang AST, z3/cvc5, encoding assumptions listed in the evidence; preconditions written in contracts/*.py; the C++ class methods and Python functions that compose these kernels are glue outside the contracts (a change there is invisible to this check). Bounded stand-ins are never counted as proved.',
   "technique": 'contract-based deductive verification of the real kernel code (VC generator over the clang AST, sidecar contracts, lockstep equivalence with the YAML definitions; z3/cvc5; replay on the compiled kernels)'},
@@ -91,7 +91,13 @@ NA = {
 NOT_BUILT = "not built yet in this round (planned in DESIGN.md section 5)"
 ALL = ["C%02d" % i for i in range(1, 21)]
 
+G_SENTENCE = (" Call sites (Engine G): the libawkward C++ methods that call these kernels are executed symbolically from their clang AST, with path conditions, and every such call is checked against the kernel's contract (each buffer holds at least the extent the contract requires for the actual scalar arguments, scalar preconditions hold; count kernels and fill kernels are tied by a ghost count over the same input buffer); only the obligations that prove on the unchanged tree are counted, the others are listed as undecided call sites in the evidence.")
+
+
 def main():
+    for _pid in ("C01", "C02", "C03", "C04", "C05", "C07", "C08", "C09", "C11", "C12"):
+        if _pid in CLAIMED and "Engine G" not in CLAIMED[_pid]["text"].split("Call sites (Engine G)")[0][-1:] and "Call sites (Engine G)" not in CLAIMED[_pid]["text"]:
+            CLAIMED[_pid]["text"] += G_SENTENCE
     checks = []
     for pid, c in CLAIMED.items():
         checks.append({
